@@ -956,6 +956,16 @@ Note that type resolution may not succeed."""
             if container:
                 typeval = container
             else:
+                ns, giname = typestr.split('.', 1)
+                if (ns != self._namespace.name
+                        and ns in self._namespace.identifier_prefixes
+                        and ns not in self._parsed_includes):
+                    # Deprecated spelling with the identifier prefix in place of
+                    # the namespace: the type is one of this namespace and is
+                    # referred to by the namespace's name
+                    message.warn(("Deprecated reference to identifier " +
+                                  "prefix %s in GIName %s") % (ns, typestr))
+                    typestr = '%s.%s' % (self._namespace.name, giname)
                 typeval = self._namespace.type_from_name(typestr)
         else:
             typeval = self.create_type_from_ctype_string(typestr)
